@@ -178,7 +178,19 @@ func (obj *Hmm) normalizeTf(t1, t2 Scalar) error {
         }
       }
     }
-    return obj.Tf.Normalize()
+    if err := obj.Tf.Normalize(); err != nil {
+      return err
+    }
+    // Normalize() turns a row without any mass into an absorbing state, i.e.
+    // a state from which no final state can be reached would end in itself;
+    // keep all states excluded that are not final states
+    for i := 0; i < obj.M; i++ {
+      for j := 0; j < obj.M; j++ {
+        if _, ok := obj.finalStates[j]; !ok {
+          obj.Tf.At(i,j).SetFloat64(math.Inf(-1))
+        }
+      }
+    }
   }
   return nil
 }
